@@ -174,6 +174,7 @@ fn add_stats(a: &mut Acc, s: &CaseStats) {
     add("transfers", s.transfers as u64);
     add("joint_entered", s.joint_entered as u64);
     add("excluded_by_known_finding_f3", s.excluded_f3 as u64);
+    add("excluded_by_known_finding_f11", s.excluded_f11 as u64);
     add("excluded_by_known_finding_f1", s.excluded_f1 as u64);
     add("excluded_other", s.excluded_other as u64);
     add("async_batches", s.async_batches as u64);
